@@ -53,7 +53,9 @@ def case_st(draw, tier):
     c = draw(st.one_of(B.st_any_container(tier), B.st_any_container(tier), B.st_any_container(tier), _generic_set(tier)))
     r = draw(rate_st)
     r2 = draw(rate_st)
-    return dict(chart=c, r=r, r2=r2)
+    # how whole-number file-level times of a StepMania mapset are typed: float (what the reader stores), a Python int (typed
+    # in by a user) or numpy's int64 (what QuaToSM stores: Quaver start times are YAML integers)
+    return dict(chart=c, r=r, r2=r2, file_num=draw(st.sampled_from(["float", "float", "int", "int64"])))
 
 
 def _scale_rows(rows, r):
@@ -146,6 +148,16 @@ def _stats(chart):
 def check_model(case, ctx):
     chart, r, r2 = case["chart"], case["r"], case["r2"]
     obj = _build(chart)
+    if chart["game"] == "sm" and not chart.get("generic") and case.get("file_num", "float") != "float":
+        import numpy as np
+
+        typed = False
+        for k in ("offset", "sample_start", "sample_length"):
+            v = getattr(obj, k)
+            if v is not None and float(v).is_integer():
+                setattr(obj, k, int(v) if case["file_num"] == "int" else np.int64(v))
+                typed = typed or v != 0
+        ctx.label("sm-file-level-times-typed-" + case["file_num"], typed)
     before_strict = B.snapshot(obj)
     before = B.content(obj)
     holds, bpms, empty = _stats(chart)
